@@ -256,6 +256,9 @@ def _is(du, val, V):
 import contracts.mps_values as MV
 from contracts.mps_values import h_pbc_values, h_mpo_mpo_values, h_complex_values, h_reverse_values, h_env3_refresh, h_overlap_values, h_mpo_values, h_env3_values, h_env_sum_project_values, h_measure_values
 FUNCTIONS = list(FUNCTIONS) + [f_ for f_ in MV.FUNCTIONS if f_ not in FUNCTIONS]
+import contracts.alg_bounded as AB
+from contracts.alg_bounded import h_tdvp_numeric
+BOUNDED_HARNESSES = {'h_tdvp_numeric'}
 
 
 def units(tier):
@@ -274,4 +277,5 @@ def units(tier):
                 if sub and N > 3:
                     continue
                 U.append(('h_tdvp_sweep', f"{method},N={N},subtract_E={sub}", dict(method=method, N=N, nsweeps=2 if method != '12site' else 1, subtract_E=sub)))
+    U = U + AB.units_c10(tier)
     return U
